@@ -18,8 +18,8 @@ CheckInv(s, e, line) == CheckInvP(Want, s, e, line)
 VARIABLES l, st, acc, stk
 
 Merge(old, d) == [k \in (DOMAIN old) \cup (DOMAIN d) |-> IF k \in DOMAIN d THEN d[k] ELSE old[k]]
-Sections == {"clock", "fee", "groups", "banks", "accts", "tok", "liqrec", "staked", "wallets", "oracles", "mints", "pools", "reserves", "obligations"}
-MapSections == {"groups", "banks", "accts", "tok", "liqrec", "staked", "wallets", "oracles", "mints", "pools", "reserves", "obligations"}
+Sections == {"clock", "fee", "groups", "banks", "accts", "tok", "liqrec", "staked", "wallets", "oracles", "mints", "pools", "reserves", "obligations", "markets"}
+MapSections == {"groups", "banks", "accts", "tok", "liqrec", "staked", "wallets", "oracles", "mints", "pools", "reserves", "obligations", "markets"}
 ApplyChg(s, chg) ==
   [sec \in Sections |->
      IF sec \in MapSections THEN
